@@ -174,7 +174,7 @@ def model_features(spec):
     f = set()
     for c in spec['classes']:
         for op in (c.get('savorize') or []):
-            if op[0].startswith('sab_') or op[0] == 'raise_seasoning':
+            if op[0].startswith('sab_') or op[0].startswith('raise_seasoning'):
                 f.add('sabotaging-savorize')
         if c.get('recognize') and c['recognize'][0] in ('any', 'mapping',
                                                         'scalar'):
